@@ -125,6 +125,12 @@ func run(ctx *xplor.Ctx) {
 		waves = 1
 	}
 	slice := budget(ctx.Tier) / time.Duration(waves)
+	if ctx.Tier != "thorough" {
+		// quick normally needs a few seconds per worker; the slice only matters on an
+		// overloaded machine, where the shared deadline (budget from the start of the
+		// run) is the bound that counts
+		slice = budget(ctx.Tier) / 2
+	}
 	workerStart := time.Now()
 	passes := tierPasses(ctx.Tier)
 	for i, cfg := range passes {
